@@ -259,7 +259,67 @@ theorem task_no_crash (sc : Scripts) (f : Nat) (t : Task) (w : World) (hI : Worl
     points to any more, `no_dangling`). -/
 theorem no_crash (sc : Scripts) (cmds : List Cmd) (cmd : Cmd) :
     topOut sc (runCmds sc World.init cmds) cmd ≠ .crash :=
-  (stepCmd_ok sc cmd (runCmds_ok sc cmds World.init init_ok)).2
+  (stepCmd_ok sc cmd (runCmds_ok sc cmds World.init init_ok)).2.1
+
+/-- **move_walk_terminates.**  The cycle check of move_object, `for (ob = dest; ob; ob = ob->super)`, ends: in a state
+    satisfying the invariant (the environment relation is a forest over the `n` allocated objects) the walk from any
+    allocated object reaches the top within `n` steps - by pigeonhole over the visited objects (`nodup_bound`). -/
+theorem move_walk_terminates {c : Core} (h : WorldInv c) (item dest : Nat) (hd : dest < c.n) :
+    superWalk c item (c.n + 1) (some dest) ≠ .loop := superWalk_not_loop h item dest hd
+
+/-- **task_no_hang.**  No well-formed task reaches the `hang` outcome (an endless `super` walk), whatever the hooks do. -/
+theorem task_no_hang (sc : Scripts) (f : Nat) (t : Task) (w : World) (hI : WorldInv w.c) (ht : TaskWf w.c t)
+    (hwf : WorldWf w) (hg : w.initBad = false) : (exec sc f t w).out ≠ .hang :=
+  (exec_good sc f t w hI ht hwf hg).nohang
+
+/-- **no_hang.**  Over all histories the next top-level command does not hang in move_object's cycle walk. -/
+theorem no_hang (sc : Scripts) (cmds : List Cmd) (cmd : Cmd) :
+    topOut sc (runCmds sc World.init cmds) cmd ≠ .hang :=
+  (stepCmd_ok sc cmd (runCmds_ok sc cmds World.init init_ok)).2.2
+
+/-- **objects_filter_sound** (finding C08-F4, repaired by the fourth `fix:` commit).  Whatever the filter function
+    does - destruct the object it is asked about, destruct others, create or move objects - the array returned by
+    objects(filter) lists only objects that are live when the efun returns, and it is a sub-list of the collected
+    obj_list (`acc.reverse ++ rest`: in obj_list order, hence without duplicates). -/
+theorem objects_filter_sound (sc : Scripts) : ∀ (f : Nat) (self : Nat) (rest acc : List Nat) (w : World),
+    (exec sc f (.objloop self rest acc) w).out = .ok → (exec sc f (.objloop self rest acc) w).val ≠ none →
+    (∀ x ∈ (exec sc f (.objloop self rest acc) w).w.res,
+        ((exec sc f (.objloop self rest acc) w).w.c.objs x).destructed = false) ∧
+    ((exec sc f (.objloop self rest acc) w).w.res).Sublist (acc.reverse ++ rest) := by
+  intro f
+  induction f with
+  | zero => intro self rest acc w h; simp [exec] at h
+  | succ f ih =>
+    intro self rest acc w
+    cases rest with
+    | nil =>
+      simp only [exec]
+      intro _ _
+      refine ⟨?_, by simp⟩
+      intro x hx
+      have := (List.mem_filter.mp hx).2
+      simpa using this
+    | cons ob rest' =>
+      simp only [exec]
+      split
+      · intro h; simp [crashR] at h
+      · split
+        · intro h1 h2
+          obtain ⟨a, b⟩ := ih self rest' acc w h1 h2
+          refine ⟨a, b.trans ?_⟩
+          simp
+        · split
+          · intro h; simp [crashR] at h
+          · split
+            · intro h; simp [raise] at h
+            · generalize exec sc f (.hook self .ofilt (some ob)) w = r1
+              unfold R.andThen
+              by_cases hok : r1.out = .ok
+              · simp only [hok, if_true]
+                intro h1 h2
+                obtain ⟨a, b⟩ := ih self rest' (ob :: acc) r1.w h1 h2
+                exact ⟨a, by simpa using b⟩
+              · intro h; simp [hok] at h
 
 /-- **init_only_adjacent** (finding C08-F2, repaired by the second `fix:` commit).  `initBad` is a ghost flag of the
     model, set whenever init() is applied to `x` with this_player() = `y` while neither is the environment of the other
@@ -299,6 +359,46 @@ theorem destructed_drops_sentences {c : Core} (h : WorldInv c) {ob : Nat} (ho : 
     simp only [unsentDestruct, hs, mapSent] at ht
     simp only [hu, hec, and_self, if_true, rmSent, List.mem_filter] at ht
     simpa using ht.2
+
+theorem ops_nil_not_err (sc : Scripts) (f : Nat) (self : Nat) (arg : Option Nat) (w : World) :
+    (exec sc f (.ops self arg []) w).out ≠ .err := by
+  cases f <;> simp [exec]
+
+/-- **catch_contains_errors.**  `catch (op)` never lets an LPC error through to the code around it (the script goes on),
+    and after a caught error command_giver, restrict_destruct and the catch depth are what they were at the catch. -/
+theorem catch_contains_errors (sc : Scripts) (f : Nat) (self : Nat) (arg : Option Nat) (o : Op) (w : World) :
+    (exec sc (f + 1) (.ops self arg [.ct o]) w).out ≠ .err := by
+  simp only [exec]
+  generalize exec sc f (.ops self arg [o]) (emit { w with catching := w.catching + 1 } s!"ctb {oid self}") = r0
+  unfold R.andThen
+  cases h : r0.out <;> simp [h] <;> (split <;> simp [ops_nil_not_err])
+
+theorem ops_nil_guards (sc : Scripts) (f : Nat) (self : Nat) (arg : Option Nat) (w : World) :
+    (exec sc f (.ops self arg []) w).w.cg = w.cg ∧ (exec sc f (.ops self arg []) w).w.restrict = w.restrict ∧
+    (exec sc f (.ops self arg []) w).w.catching = w.catching := by
+  cases f <;> simp [exec, emit]
+
+/-- **catch_restores_guards.**  When the operation inside `catch ()` raised an error, the code after the catch runs with
+    command_giver, restrict_destruct and the catch depth of the moment the catch was entered (save_context /
+    restore_context) - in particular a caught "Only this_object() can be destructed from move_or_destruct" leaves the
+    restriction of the running move_or_destruct hook in force. -/
+theorem catch_restores_guards (sc : Scripts) (f : Nat) (self : Nat) (arg : Option Nat) (o : Op) (w : World)
+    (herr : (exec sc f (.ops self arg [o]) (emit { w with catching := w.catching + 1 } s!"ctb {oid self}")).out = .err) :
+    (exec sc (f + 1) (.ops self arg [.ct o]) w).w.cg = w.cg ∧
+    (exec sc (f + 1) (.ops self arg [.ct o]) w).w.restrict = w.restrict ∧
+    (exec sc (f + 1) (.ops self arg [.ct o]) w).w.catching = w.catching := by
+  simp only [exec]
+  generalize exec sc f (.ops self arg [o]) (emit { w with catching := w.catching + 1 } s!"ctb {oid self}") = r0 at herr
+  simp only [herr, R.andThen]
+  simp only [if_true]
+  split
+  · simp [emit]
+  · have := ops_nil_guards sc f self arg (emit { r0.w with catching := w.catching, cg := w.cg, restrict := w.restrict } s!"r ct {oid self} 1")
+    simpa [emit] using this
+/-- `catch_restores_guards` is not vacuous: `catch (error ("boom"))` -/
+example (sc : Scripts) : (exec sc 1 (.ops 1 none [.err])
+    (emit { World.init with catching := World.init.catching + 1 } s!"ctb {oid 1}")).out = .err := by
+  simp [exec, raise, R.andThen]
 
 /-! ## non-vacuity: the hypotheses are met by non-trivial states -/
 
@@ -381,6 +481,13 @@ example (cmds : List Cmd) :
       | .mod => [.mvarg]
       | .act => [.de i]
       | .id => [.mv i 1]
-      | .hbeat => [.de i]) World.init cmds).c := reachable_inv _ cmds
+      | .hbeat => [.de i]
+      | .ofilt => [.ct (.de i)]) World.init cmds).c := reachable_inv _ cmds
+
+/-- `objects_filter_sound` is not vacuous: the filter pass over an empty rest returns an array (the two initial objects
+    accepted so far) -/
+example (sc : Scripts) : (exec sc 1 (.objloop 1 [] [0, 1]) World.init).out = .ok ∧
+    (exec sc 1 (.objloop 1 [] [0, 1]) World.init).val ≠ none := by
+  simp [exec]
 
 end NV.C08
